@@ -132,6 +132,10 @@ def step (s : St) : List String → St × String
     | some a, some bs => ({ s with blocks := s.blocks.push (a, bs) }, "ok")
     | _, _ => (s, "bad-op")
   | ["memreset"] => ({ s with blocks := #[] }, "ok")
+  | ["constkey", raw] =>
+    match decNat? raw with
+    | some r => (s, match constKey r with | some k => toString k | none => "-")
+    | none => (s, "bad-op")
   | ["discrkey", w, raw] =>
     match decNat? w, decNat? raw with
     | some w, some r => (s, let k := discrKey w r; if k < 0 then "m" ++ toString k.natAbs else toString k)
